@@ -107,8 +107,13 @@ def reduce_trig(p, rename, pairs, limit=200000):
                 rest = list(m)
                 rest.remove(sid)
                 rest.remove(sid)
-                work.append((tuple(sorted(rest)), c))
-                work.append((tuple(sorted(rest + [cid, cid])), -c))
+                if isinstance(cid, dict):
+                    # sqrt(X)^2 -> X  (X given as a polynomial)
+                    for mx, cx in cid.items():
+                        work.append((tuple(sorted(rest + list(mx))), c * cx))
+                else:
+                    work.append((tuple(sorted(rest)), c))
+                    work.append((tuple(sorted(rest + [cid, cid])), -c))
                 done = False
                 break
         if done:
